@@ -356,6 +356,7 @@ package plush
 //@ ensures rendered: err == nil ==> trusted(result)
 //@ ensures restored: c.ctx == old(c.ctx) && (c.curStmt == nil || pay(c.curStmt) != 0)
 //@ ensures empty: err != nil ==> result == ""
+//@ ensures line: err != nil && c.curStmt != nil ==> linemsg(err, box(ast.tokof(c.curStmt).LineNumber))
 //@ errprop
 //@ assigns c.ctx, c.curStmt, mapsof("map[string]interface{}"), fresh
 //@ loop 1: invariant cctx(c) && c.ctx == old(c.ctx) && c.program == old(c.program) && bb != nil && trusted(out(bb))
